@@ -80,8 +80,8 @@ struct Space
    const char* result_prop = "C01";
    const char* exc_prop = "C05";
    bool check_hooks = false, check_actions = true;
-   long fuel = 20000;     // rule entries allowed to the implementation per execution
-   long ref_fuel = 4000;  // backstop for the reference (true divergence is detected structurally)
+   long fuel = 3000;     // rule entries allowed to the implementation per execution
+   long ref_fuel = 500;   // backstop for the reference (true divergence is detected structurally)
    long max_exec_per_prog = 2000000;
    std::vector< Phase > phases;
 
